@@ -213,28 +213,31 @@ func VerifLemma_C15D_ResponseWriterFlush() {
 	verifAssert(len(provider.opened) == 0, "AddResponse stages in memory and touches no disk bucket")
 	err := w.Close()
 	verifCover("closed")
-	// which directories were attempted, and did any attempted flush fail?
-	firstFailed := -1
-	for i, dir := range dirs {
-		if i < len(provider.opened) {
-			verifAssert(provider.opened[i] == dir, "Close flushes the directories in the order they were first used")
-		}
-		failed := provider.failOpen[dir] || provider.buckets[dir].faulted
-		if i < len(provider.opened) && failed && firstFailed < 0 {
-			firstFailed = i
+	// What C15 requires (and nothing more): a failing flush that Close attempted is reported, whatever its position;
+	// a directory flushed without failure holds exactly its files; without failures everything is flushed. The ORDER in
+	// which out directories are flushed and whether Close goes on after a failure are not specified (flushing every
+	// location and joining the errors is as legitimate as stopping at the first failure).
+	attempted := map[string]int{}
+	for _, dir := range provider.opened {
+		attempted[dir]++
+	}
+	anyAttemptedFailed := false
+	for _, dir := range dirs {
+		verifAssert(attempted[dir] <= 1, "Close opens each out directory at most once")
+		if attempted[dir] == 1 && (provider.failOpen[dir] || provider.buckets[dir].faulted) {
+			anyAttemptedFailed = true
 		}
 		verifAssert(provider.buckets[dir].open == 0, "Close: every opened writer is closed")
 	}
-	verifAssert((err != nil) == (firstFailed >= 0), "Close returns an error iff a flush it attempted failed (a later success never hides an earlier failure)")
-	if firstFailed >= 0 {
+	verifAssert((err != nil) == anyAttemptedFailed, "Close returns an error iff a flush it attempted failed (a later success never hides an earlier failure)")
+	if anyAttemptedFailed {
 		verifCover("some flush failed")
-		verifAssert(len(provider.opened) == firstFailed+1, "Close stops at the first failing directory: later directories are not attempted")
 	} else {
 		verifAssert(len(provider.opened) == outs, "without a failure every directory is flushed")
 	}
-	for i, dir := range dirs {
-		if firstFailed >= 0 && i >= firstFailed {
-			break
+	for _, dir := range dirs {
+		if attempted[dir] == 0 || provider.failOpen[dir] || provider.buckets[dir].faulted {
+			continue
 		}
 		// completely flushed directory
 		for _, g := range gens {
